@@ -39,6 +39,9 @@
 (*                       return its slots (NoSlotLeak fails).  Self-test.  *)
 (*   DevDropOnPeerFull   a full per-peer semaphore drops instead of        *)
 (*                       blocking (BackPressureNotDrop fails).  Self-test. *)
+(*   DevCtxLeak          AddContext with an already cancelled parent returns an *)
+(*                       error without giving back what Add counted             *)
+(*                       (TgAccounting and StopReturns fail).  Self-test.       *)
 (*   DevStop2NoWait      a Stop that finds the group already closed returns     *)
 (*                       without waiting (StopWaits fails).  Self-test.         *)
 (*   DevAddUnlocked      ThreadGroup.Add tests `closed` and joins in two   *)
@@ -59,6 +62,8 @@ CONSTANTS
     Threads,        \* plain users of the thread group
     WithRun,        \* TRUE: Syncer.Run is a member of the group and tears the peers down on Stop
     AllowDisconnect,\* TRUE: a peer may hang up at any moment
+    CtxThreads,     \* threads that join with AddContext(parent): their parent context may be cancelled at any moment
+    DevCtxLeak,     \* self-test: AddContext with an already cancelled parent returns an error AFTER having joined
     TwoStoppers,    \* TRUE: a second Stop/Close may be called while the first one is waiting
     DevCapCheckThenAct, DevSweepOnce, DevLeakOnTgFail, DevDropOnPeerFull, DevAddUnlocked,
     DevStop2NoWait  \* self-test: a Stop that finds the group already closed returns at once
@@ -72,6 +77,7 @@ VARIABLES
     gone,        \* per peer: the peer hung up
     tgLive,      \* threadgroup: WaitGroup counter
     stop,        \* "no" | "closed" (closed channel closed) | "waiting" (wg.Wait) | "returned"
+    par,         \* per thread: state of the parent context handed to AddContext: "live" | "cancelled"
     stop2,       \* a second, overlapping Stop: "idle" | "waiting" (found the channel closed; wg.Wait) | "returned"
     lclosed,     \* the listener is closed (first statement of Syncer.Close)
     peersClosed, \* Run's teardown has run: it closed every peer that was in s.peers at that moment
@@ -81,8 +87,8 @@ VARIABLES
     th,          \* per thread: "idle","chk","live","done","refused"
     act
 
-vars == <<lim, st, out, sem, sub, loopOn, gone, tgLive, stop, lclosed, peersClosed, dead, runLive, conn, th, stop2, act>>
-view == <<lim, st, out, sem, sub, loopOn, gone, tgLive, stop, lclosed, peersClosed, dead, runLive, conn, th, stop2>>
+vars == <<lim, st, out, sem, sub, loopOn, gone, tgLive, stop, lclosed, peersClosed, dead, runLive, conn, th, stop2, par, act>>
+view == <<lim, st, out, sem, sub, loopOn, gone, tgLive, stop, lclosed, peersClosed, dead, runLive, conn, th, stop2, par>>
 
 RpcIds == 1..NRpc
 Conns == InConns \cup OutConns
@@ -122,7 +128,8 @@ TypeOK ==
     /\ peersClosed \in BOOLEAN /\ lclosed \in BOOLEAN /\ runLive \in {0, 1}
     /\ dead \in [Conns -> BOOLEAN]
     /\ conn \in [Conns -> {"idle", "checked", "shaken", "peer", "running", "rejected", "closed"}]
-    /\ th \in [Threads -> {"idle", "chk", "live", "done", "refused"}]
+    /\ th \in [Threads -> {"idle", "chk", "live", "done", "refused", "errored"}]
+    /\ par \in [Threads -> {"live", "cancelled"}]
 
 InitState(l) ==
     /\ lim = l
@@ -139,6 +146,7 @@ InitState(l) ==
     /\ dead = [c \in Conns |-> FALSE]
     /\ conn = [c \in Conns |-> "idle"]
     /\ th = [t \in Threads |-> "idle"]
+    /\ par = [t \in Threads |-> "live"]
     /\ act = Lbl("Init", "", 0)
 
 Init == \E a \in InflightCaps, b \in SubnetCaps, c \in InCaps, d \in OutCaps :
@@ -154,7 +162,7 @@ Arrive(p, r) ==
     /\ G_Arrive(p, r)
     /\ st' = [st EXCEPT ![p][r] = "arrived"]
     /\ act' = Lbl("Arrive", p, r)
-    /\ UNCHANGED <<lim, out, sem, sub, loopOn, gone, tgLive, stop, lclosed, peersClosed, dead, runLive, conn, th, stop2>>
+    /\ UNCHANGED <<lim, out, sem, sub, loopOn, gone, tgLive, stop, lclosed, peersClosed, dead, runLive, conn, th, stop2, par>>
 
 \* `inflight <- struct{}{}` : BLOCKS while the semaphore is full (not enabled).  After Stop the select may
 \* still take this branch (Go picks at random among ready cases), so `stop` is not consulted.
@@ -172,7 +180,7 @@ AcquirePeer(p) ==
                    /\ out' = [out EXCEPT ![p][r] = "droppeer"]
                    /\ sem' = sem
          /\ act' = Lbl("AcquirePeer", p, r)
-    /\ UNCHANGED <<lim, sub, loopOn, gone, tgLive, stop, lclosed, peersClosed, dead, runLive, conn, th, stop2>>
+    /\ UNCHANGED <<lim, sub, loopOn, gone, tgLive, stop, lclosed, peersClosed, dead, runLive, conn, th, stop2, par>>
 
 \* acquireInflight: non-blocking; failure = `<-inflight; stream.Close(); continue`
 G_AcquireSubnet(p) == loopOn[p] /\ \E r \in RpcIds : st[p][r] = "gotpeer"
@@ -190,7 +198,7 @@ AcquireSubnet(p) ==
                 /\ sem' = [sem EXCEPT ![p] = @ - 1]
                 /\ sub' = sub
                 /\ act' = Lbl("DropSubnet", p, r)
-    /\ UNCHANGED <<lim, loopOn, gone, tgLive, stop, lclosed, peersClosed, dead, runLive, conn, th, stop2>>
+    /\ UNCHANGED <<lim, loopOn, gone, tgLive, stop, lclosed, peersClosed, dead, runLive, conn, th, stop2, par>>
 
 \* `go func() { ... }()`
 G_Spawn(p) == loopOn[p] /\ \E r \in RpcIds : st[p][r] = "gotsub"
@@ -199,7 +207,7 @@ Spawn(p) ==
     /\ LET r == TheOne({x \in RpcIds : st[p][x] = "gotsub"}) IN
          /\ st' = [st EXCEPT ![p][r] = "spawned"]
          /\ act' = Lbl("Spawn", p, r)
-    /\ UNCHANGED <<lim, out, sem, sub, loopOn, gone, tgLive, stop, lclosed, peersClosed, dead, runLive, conn, th, stop2>>
+    /\ UNCHANGED <<lim, out, sem, sub, loopOn, gone, tgLive, stop, lclosed, peersClosed, dead, runLive, conn, th, stop2, par>>
 
 \* handler goroutine: s.tg.Add(); refused after Stop -> the two deferred releases run
 G_TgAdd(p, r) == st[p][r] = "spawned"
@@ -214,7 +222,7 @@ TgAdd(p, r) ==
               /\ out' = [out EXCEPT ![p][r] = "rejected"]
               /\ tgLive' = tgLive
               /\ act' = Lbl("TgRefuse", p, r)
-    /\ UNCHANGED <<lim, sem, sub, loopOn, gone, stop, lclosed, peersClosed, dead, runLive, conn, th, stop2>>
+    /\ UNCHANGED <<lim, sem, sub, loopOn, gone, stop, lclosed, peersClosed, dead, runLive, conn, th, stop2, par>>
 
 \* the handler returns (the response is written unless the transport is already dead: the peer hung up, Run
 \* closed it, or runPeer returned -- the accepting goroutine closes the connection when runPeer returns)
@@ -227,7 +235,7 @@ Handle(p, r) ==
     /\ out' = [out EXCEPT ![p][r] = IF peersClosed \/ gone[p] \/ ~loopOn[p] THEN "lost"
                                      ELSE IF lclosed THEN "maybe" ELSE "answered"]
     /\ act' = Lbl("Handle", p, r)
-    /\ UNCHANGED <<lim, sem, sub, loopOn, gone, tgLive, stop, lclosed, peersClosed, dead, runLive, conn, th, stop2>>
+    /\ UNCHANGED <<lim, sem, sub, loopOn, gone, tgLive, stop, lclosed, peersClosed, dead, runLive, conn, th, stop2, par>>
 
 \* deferred calls run LIFO: stream.Close, done() -- the group is left BEFORE the slots are returned
 G_HandleDone(p, r) == st[p][r] = "exited"
@@ -236,7 +244,7 @@ HandleDone(p, r) ==
     /\ st' = [st EXCEPT ![p][r] = "ending"]
     /\ tgLive' = tgLive - 1
     /\ act' = Lbl("HandleDone", p, r)
-    /\ UNCHANGED <<lim, out, sem, sub, loopOn, gone, stop, lclosed, peersClosed, dead, runLive, conn, th, stop2>>
+    /\ UNCHANGED <<lim, out, sem, sub, loopOn, gone, stop, lclosed, peersClosed, dead, runLive, conn, th, stop2, par>>
 
 G_ReleaseSubnet(p, r) == st[p][r] = "ending"
 ReleaseSubnet(p, r) ==
@@ -244,7 +252,7 @@ ReleaseSubnet(p, r) ==
     /\ st' = [st EXCEPT ![p][r] = "relsub"]
     /\ sub' = IF SubnetOn THEN [sub EXCEPT ![SubnetOf(p)] = @ - 1] ELSE sub
     /\ act' = Lbl("ReleaseSubnet", p, r)
-    /\ UNCHANGED <<lim, out, sem, loopOn, gone, tgLive, stop, lclosed, peersClosed, dead, runLive, conn, th, stop2>>
+    /\ UNCHANGED <<lim, out, sem, loopOn, gone, tgLive, stop, lclosed, peersClosed, dead, runLive, conn, th, stop2, par>>
 
 G_ReleasePeer(p, r) == st[p][r] = "relsub"
 ReleasePeer(p, r) ==
@@ -252,7 +260,7 @@ ReleasePeer(p, r) ==
     /\ st' = [st EXCEPT ![p][r] = "final"]
     /\ sem' = [sem EXCEPT ![p] = @ - 1]
     /\ act' = Lbl("ReleasePeer", p, r)
-    /\ UNCHANGED <<lim, out, sub, loopOn, gone, tgLive, stop, lclosed, peersClosed, dead, runLive, conn, th, stop2>>
+    /\ UNCHANGED <<lim, out, sub, loopOn, gone, tgLive, stop, lclosed, peersClosed, dead, runLive, conn, th, stop2, par>>
 
 \* runPeer returns: at the select (`<-s.tg.Done()`) once Stop has begun, or at acceptRPC once the transport
 \* is dead (peer hung up / Run closed the peers).  Deliberately permissive about which of the two.
@@ -262,7 +270,7 @@ LoopExit(p) ==
     /\ loopOn' = [loopOn EXCEPT ![p] = FALSE]
     /\ tgLive' = tgLive - 1
     /\ act' = Lbl("LoopExit", p, 0)
-    /\ UNCHANGED <<lim, st, out, sem, sub, gone, stop, lclosed, peersClosed, dead, runLive, conn, th, stop2>>
+    /\ UNCHANGED <<lim, st, out, sem, sub, gone, stop, lclosed, peersClosed, dead, runLive, conn, th, stop2, par>>
 
 \* a stream that arrived but was never taken dies with the connection
 G_Abandon(p, r) == st[p][r] = "arrived" /\ ~loopOn[p]
@@ -271,14 +279,14 @@ Abandon(p, r) ==
     /\ st' = [st EXCEPT ![p][r] = "final"]
     /\ out' = [out EXCEPT ![p][r] = "dropshut"]
     /\ act' = Lbl("Abandon", p, r)
-    /\ UNCHANGED <<lim, sem, sub, loopOn, gone, tgLive, stop, lclosed, peersClosed, dead, runLive, conn, th, stop2>>
+    /\ UNCHANGED <<lim, sem, sub, loopOn, gone, tgLive, stop, lclosed, peersClosed, dead, runLive, conn, th, stop2, par>>
 
 G_Disconnect(p) == AllowDisconnect /\ ~gone[p]
 Disconnect(p) ==
     /\ G_Disconnect(p)
     /\ gone' = [gone EXCEPT ![p] = TRUE]
     /\ act' = Lbl("Disconnect", p, 0)
-    /\ UNCHANGED <<lim, st, out, sem, sub, loopOn, tgLive, stop, lclosed, peersClosed, dead, runLive, conn, th, stop2>>
+    /\ UNCHANGED <<lim, st, out, sem, sub, loopOn, tgLive, stop, lclosed, peersClosed, dead, runLive, conn, th, stop2, par>>
 
 -----------------------------------------------------------------------------
 (* thread group, Run *)
@@ -289,28 +297,28 @@ CloseListener ==
     /\ G_CloseListener
     /\ lclosed' = TRUE
     /\ act' = Lbl("CloseListener", "", 0)
-    /\ UNCHANGED <<lim, st, out, sem, sub, loopOn, gone, tgLive, stop, peersClosed, dead, runLive, conn, th, stop2>>
+    /\ UNCHANGED <<lim, st, out, sem, sub, loopOn, gone, tgLive, stop, peersClosed, dead, runLive, conn, th, stop2, par>>
 
 G_StopBegin == stop = "no" /\ (WithRun => lclosed)
 StopBegin ==
     /\ G_StopBegin
     /\ stop' = "closed"
     /\ act' = Lbl("StopBegin", "", 0)
-    /\ UNCHANGED <<lim, st, out, sem, sub, loopOn, gone, tgLive, lclosed, peersClosed, dead, runLive, conn, th, stop2>>
+    /\ UNCHANGED <<lim, st, out, sem, sub, loopOn, gone, tgLive, lclosed, peersClosed, dead, runLive, conn, th, stop2, par>>
 
 G_StopWait == stop = "closed"
 StopWait ==
     /\ G_StopWait
     /\ stop' = "waiting"
     /\ act' = Lbl("StopWait", "", 0)
-    /\ UNCHANGED <<lim, st, out, sem, sub, loopOn, gone, tgLive, lclosed, peersClosed, dead, runLive, conn, th, stop2>>
+    /\ UNCHANGED <<lim, st, out, sem, sub, loopOn, gone, tgLive, lclosed, peersClosed, dead, runLive, conn, th, stop2, par>>
 
 G_StopReturn == stop = "waiting" /\ tgLive = 0
 StopReturn ==
     /\ G_StopReturn
     /\ stop' = "returned"
     /\ act' = Lbl("StopReturn", "", 0)
-    /\ UNCHANGED <<lim, st, out, sem, sub, loopOn, gone, tgLive, lclosed, peersClosed, dead, runLive, conn, th, stop2>>
+    /\ UNCHANGED <<lim, st, out, sem, sub, loopOn, gone, tgLive, lclosed, peersClosed, dead, runLive, conn, th, stop2, par>>
 
 \* Stop / Close may be called again while the first call is still waiting (Stop is written to be called twice:
 \* `select { case <-tg.closed: default: close(tg.closed) }`).  The second caller finds the channel closed and
@@ -320,14 +328,14 @@ Stop2Begin ==
     /\ G_Stop2Begin
     /\ stop2' = IF DevStop2NoWait THEN "returned" ELSE "waiting"
     /\ act' = Lbl("Stop2Begin", "", 0)
-    /\ UNCHANGED <<lim, st, out, sem, sub, loopOn, gone, tgLive, stop, lclosed, peersClosed, dead, runLive, conn, th>>
+    /\ UNCHANGED <<lim, st, out, sem, sub, loopOn, gone, tgLive, stop, lclosed, peersClosed, dead, runLive, conn, th, par>>
 
 G_Stop2Return == stop2 = "waiting" /\ tgLive = 0
 Stop2Return ==
     /\ G_Stop2Return
     /\ stop2' = "returned"
     /\ act' = Lbl("Stop2Return", "", 0)
-    /\ UNCHANGED <<lim, st, out, sem, sub, loopOn, gone, tgLive, stop, lclosed, peersClosed, dead, runLive, conn, th>>
+    /\ UNCHANGED <<lim, st, out, sem, sub, loopOn, gone, tgLive, stop, lclosed, peersClosed, dead, runLive, conn, th, par>>
 
 \* the listener is closed; acceptLoop fails; Run's teardown closes every peer that is in s.peers NOW (once)
 G_ClosePeers == WithRun /\ lclosed /\ ~peersClosed
@@ -336,7 +344,7 @@ ClosePeers ==
     /\ peersClosed' = TRUE
     /\ dead' = [c \in Conns |-> dead[c] \/ IsPeer(c)]
     /\ act' = Lbl("ClosePeers", "", 0)
-    /\ UNCHANGED <<lim, st, out, sem, sub, loopOn, gone, tgLive, stop, lclosed, runLive, conn, th, stop2>>
+    /\ UNCHANGED <<lim, st, out, sem, sub, loopOn, gone, tgLive, stop, lclosed, runLive, conn, th, stop2, par>>
 
 \* Run waits until s.peers is empty, then leaves the group
 G_RunExit == runLive = 1 /\ peersClosed /\ (\A p \in Peers : ~loopOn[p]) /\ (\A c \in Conns : ~IsPeer(c))
@@ -345,7 +353,7 @@ RunExit ==
     /\ runLive' = 0
     /\ tgLive' = tgLive - 1
     /\ act' = Lbl("RunExit", "", 0)
-    /\ UNCHANGED <<lim, st, out, sem, sub, loopOn, gone, stop, lclosed, peersClosed, dead, conn, th, stop2>>
+    /\ UNCHANGED <<lim, st, out, sem, sub, loopOn, gone, stop, lclosed, peersClosed, dead, conn, th, stop2, par>>
 
 \* plain members: rhp4.Server stream goroutines, the wallet's rebroadcast goroutine, ThreadGroup users
 G_ThAdd(t) == th[t] = "idle"
@@ -353,10 +361,24 @@ ThAdd(t) ==
     /\ G_ThAdd(t)
     /\ IF stop # "no"
          THEN th' = [th EXCEPT ![t] = "refused"] /\ tgLive' = tgLive /\ act' = Lbl("ThRefuse", t, 0)
+         ELSE IF DevCtxLeak /\ t \in CtxThreads /\ par[t] = "cancelled"
+           \* deviation only: the caller gets an error and will never call done, but Add has counted it
+           THEN th' = [th EXCEPT ![t] = "errored"] /\ tgLive' = tgLive + 1 /\ act' = Lbl("ThAdd", t, 0)
          ELSE IF DevAddUnlocked
            THEN th' = [th EXCEPT ![t] = "chk"] /\ tgLive' = tgLive /\ act' = Lbl("ThCheck", t, 0)
            ELSE th' = [th EXCEPT ![t] = "live"] /\ tgLive' = tgLive + 1 /\ act' = Lbl("ThAdd", t, 0)
-    /\ UNCHANGED <<lim, st, out, sem, sub, loopOn, gone, stop, lclosed, peersClosed, dead, runLive, conn, stop2>>
+    /\ UNCHANGED <<lim, st, out, sem, sub, loopOn, gone, stop, lclosed, peersClosed, dead, runLive, conn, stop2, par>>
+
+\* AddContext(parent): the parent context may be cancelled before the thread joins (it still joins: the member is
+\* handed an already cancelled context and leaves through its done func like any other), while it is a member
+\* (its context is cancelled; it stays a member until done), or after it has left.  Whatever the parent does,
+\* what Add counted is given back by done: registered = running.
+G_CancelParent(t) == t \in CtxThreads /\ par[t] = "live"
+CancelParent(t) ==
+    /\ G_CancelParent(t)
+    /\ par' = [par EXCEPT ![t] = "cancelled"]
+    /\ act' = Lbl("CancelParent", t, 0)
+    /\ UNCHANGED <<lim, st, out, sem, sub, loopOn, gone, tgLive, stop, lclosed, peersClosed, dead, runLive, conn, th, stop2>>
 
 G_ThCommit(t) == th[t] = "chk"      \* deviation only
 ThCommit(t) ==
@@ -364,7 +386,7 @@ ThCommit(t) ==
     /\ th' = [th EXCEPT ![t] = "live"]
     /\ tgLive' = tgLive + 1
     /\ act' = Lbl("ThAdd", t, 0)
-    /\ UNCHANGED <<lim, st, out, sem, sub, loopOn, gone, stop, lclosed, peersClosed, dead, runLive, conn, stop2>>
+    /\ UNCHANGED <<lim, st, out, sem, sub, loopOn, gone, stop, lclosed, peersClosed, dead, runLive, conn, stop2, par>>
 
 G_ThDone(t) == th[t] = "live"
 ThDone(t) ==
@@ -372,7 +394,7 @@ ThDone(t) ==
     /\ th' = [th EXCEPT ![t] = "done"]
     /\ tgLive' = tgLive - 1
     /\ act' = Lbl("ThDone", t, 0)
-    /\ UNCHANGED <<lim, st, out, sem, sub, loopOn, gone, stop, lclosed, peersClosed, dead, runLive, conn, stop2>>
+    /\ UNCHANGED <<lim, st, out, sem, sub, loopOn, gone, stop, lclosed, peersClosed, dead, runLive, conn, stop2, par>>
 
 -----------------------------------------------------------------------------
 (* CONN family *)
@@ -387,7 +409,7 @@ AllowCheck(c) ==
     /\ IF stop = "no" /\ CountFor(c) < CapFor(c)      \* (a connection accepted before the listener closed may get here after it)
          THEN conn' = [conn EXCEPT ![c] = "checked"] /\ tgLive' = tgLive + 1 /\ act' = Lbl("AllowCheck", c, 1)
          ELSE conn' = [conn EXCEPT ![c] = "rejected"] /\ tgLive' = tgLive /\ act' = Lbl("AllowCheck", c, 0)
-    /\ UNCHANGED <<lim, st, out, sem, sub, loopOn, gone, stop, lclosed, peersClosed, dead, runLive, th, stop2>>
+    /\ UNCHANGED <<lim, st, out, sem, sub, loopOn, gone, stop, lclosed, peersClosed, dead, runLive, th, stop2, par>>
 
 \* the listener is closed: the connection is not taken at all
 G_Refuse(c) == conn[c] = "idle" /\ c \in InConns /\ lclosed
@@ -395,14 +417,14 @@ Refuse(c) ==
     /\ G_Refuse(c)
     /\ conn' = [conn EXCEPT ![c] = "rejected"]
     /\ act' = Lbl("Refuse", c, 0)
-    /\ UNCHANGED <<lim, st, out, sem, sub, loopOn, gone, tgLive, stop, lclosed, peersClosed, dead, runLive, th, stop2>>
+    /\ UNCHANGED <<lim, st, out, sem, sub, loopOn, gone, tgLive, stop, lclosed, peersClosed, dead, runLive, th, stop2, par>>
 
 G_Handshake(c) == conn[c] = "checked"
 Handshake(c) ==
     /\ G_Handshake(c)
     /\ conn' = [conn EXCEPT ![c] = "shaken"]
     /\ act' = Lbl("Handshake", c, 0)
-    /\ UNCHANGED <<lim, st, out, sem, sub, loopOn, gone, tgLive, stop, lclosed, peersClosed, dead, runLive, th, stop2>>
+    /\ UNCHANGED <<lim, st, out, sem, sub, loopOn, gone, tgLive, stop, lclosed, peersClosed, dead, runLive, th, stop2, par>>
 
 \* the handshake fails (remote hangs up, deadline).  Once the handshake is through the syncer does not notice
 \* a hang-up before runPeer's first acceptRPC, i.e. a "shaken" attempt always proceeds to AddPeer.
@@ -412,7 +434,7 @@ Abort(c) ==
     /\ conn' = [conn EXCEPT ![c] = "closed"]
     /\ tgLive' = tgLive - 1
     /\ act' = Lbl("Abort", c, 0)
-    /\ UNCHANGED <<lim, st, out, sem, sub, loopOn, gone, stop, lclosed, peersClosed, dead, runLive, th, stop2>>
+    /\ UNCHANGED <<lim, st, out, sem, sub, loopOn, gone, stop, lclosed, peersClosed, dead, runLive, th, stop2, par>>
 
 \* addPeer: s.peers[addr] = p under s.mu.  Intended design: under this lock the cap is re-checked and nothing
 \* is inserted once Run's teardown has begun.
@@ -422,7 +444,7 @@ AddPeer(c) ==
     /\ IF (~DevCapCheckThenAct /\ CountFor(c) >= CapFor(c)) \/ (~DevSweepOnce /\ peersClosed)
          THEN conn' = [conn EXCEPT ![c] = "rejected"] /\ tgLive' = tgLive - 1 /\ act' = Lbl("AddPeer", c, 0)
          ELSE conn' = [conn EXCEPT ![c] = "peer"] /\ tgLive' = tgLive /\ act' = Lbl("AddPeer", c, 1)
-    /\ UNCHANGED <<lim, st, out, sem, sub, loopOn, gone, stop, lclosed, peersClosed, dead, runLive, th, stop2>>
+    /\ UNCHANGED <<lim, st, out, sem, sub, loopOn, gone, stop, lclosed, peersClosed, dead, runLive, th, stop2, par>>
 
 \* runPeer's own tg.Add: refused after Stop -> the peer is removed at once
 G_RunPeer(c) == conn[c] = "peer"
@@ -431,7 +453,7 @@ RunPeer(c) ==
     /\ IF stop = "no"
          THEN conn' = [conn EXCEPT ![c] = "running"] /\ tgLive' = tgLive /\ act' = Lbl("RunPeer", c, 1)
          ELSE conn' = [conn EXCEPT ![c] = "closed"] /\ tgLive' = tgLive - 1 /\ act' = Lbl("RunPeer", c, 0)
-    /\ UNCHANGED <<lim, st, out, sem, sub, loopOn, gone, stop, lclosed, peersClosed, dead, runLive, th, stop2>>
+    /\ UNCHANGED <<lim, st, out, sem, sub, loopOn, gone, stop, lclosed, peersClosed, dead, runLive, th, stop2, par>>
 
 G_RemovePeer(c) == conn[c] = "running"
 RemovePeer(c) ==
@@ -439,7 +461,7 @@ RemovePeer(c) ==
     /\ conn' = [conn EXCEPT ![c] = "closed"]
     /\ tgLive' = tgLive - 1
     /\ act' = Lbl("RemovePeer", c, 0)
-    /\ UNCHANGED <<lim, st, out, sem, sub, loopOn, gone, stop, lclosed, peersClosed, dead, runLive, th, stop2>>
+    /\ UNCHANGED <<lim, st, out, sem, sub, loopOn, gone, stop, lclosed, peersClosed, dead, runLive, th, stop2, par>>
 
 -----------------------------------------------------------------------------
 \* steps the environment decides (when a peer sends, hangs up, when Close is called, when a connection is
@@ -448,7 +470,7 @@ EnvNext ==
     \/ \E p \in Peers, r \in RpcIds : Arrive(p, r)
     \/ \E p \in Peers : Disconnect(p)
     \/ CloseListener \/ StopBegin \/ Stop2Begin
-    \/ \E t \in Threads : ThAdd(t)
+    \/ \E t \in Threads : ThAdd(t) \/ CancelParent(t)
     \/ \E c \in Conns : AllowCheck(c) \/ Refuse(c) \/ Handshake(c)
     \/ \E c \in Conns : (stop = "no" /\ Abort(c)) \/ (~dead[c] /\ RemovePeer(c))    \* the remote hangs up
 
@@ -468,7 +490,7 @@ Terminated ==
     /\ stop = "returned" /\ (TwoStoppers => stop2 = "returned")
     /\ \A p \in Peers, r \in RpcIds : st[p][r] = "final" \/ (p \in OneShot /\ r > 1)
     /\ \A c \in Conns : conn[c] \in {"rejected", "closed"}
-    /\ \A t \in Threads : th[t] \in {"done", "refused"}
+    /\ \A t \in Threads : th[t] \in {"done", "refused"} /\ (t \in CtxThreads => par[t] = "cancelled")
 Idle == Terminated /\ UNCHANGED vars
 
 Next == EnvNext \/ InternalNext \/ Idle
@@ -536,6 +558,7 @@ AddAfterStopRejected ==
 
 \* liveness (under FairSpec): Stop returns, every RPC that arrived is settled
 StopReturns == (stop # "no") ~> (stop = "returned")
+StopTerminates == StopReturns      \* (the name used for "a Stop with no work running never blocks")
 Stop2Returns == (stop2 = "waiting") ~> (stop2 = "returned")
 RpcsSettle == \A p \in Peers, r \in RpcIds : (st[p][r] = "arrived" /\ stop # "no") ~> (st[p][r] = "final")
 =============================================================================
